@@ -182,7 +182,7 @@ CLAIMS["C04"] = dict(
     note=TB + 'NOT covered: that the parser calls these functions in an order that yields a balanced stream for every document (a postcondition of the whole block pass, not within reach), that nothing is left open at the end of the document, that a new-list-item token appears directly inside its list, link/image nesting, and the stacks kept by rules and generators.')
 
 CLAIMS["C08"] = dict(
-    text="Proof of what a fix is allowed to touch (a fragment of the property): the fix vocabulary is closed -- every (rule, token field) a rule can pass to register_fix_token_request, the field name resolved through locals, parameters and queued Fixer records, is in the whitelist specs/fix_vocabulary.json, and token ranges are replaced only by MD012/MD031/MD046 (one structural obligation per call site); _modify_token of all 15 token classes stores the requested value into exactly the attribute behind the named field and nothing else but the derived extra_data, unknown field or ill-typed value changes nothing; the replacement splice __apply_replacement_fix keeps every token before and after the replaced range exactly once and in order, moves the line number of exactly the tokens after the range by (lines of the replacement - lines replaced) and moves every pragma line below the range -- also those of the alternate '<!---' prefix, kept under negative keys -- by the same amount while every other pragma stays, none lost or overwritten (loop invariants, no bound; D12, D17 fixed); conflicting requests are refused, never silently resolved (__look_for_collisions raises iff a token of the range is already edited or replaced, __apply_replacements checks ALL replacements before applying the first and applies each once in order, __apply_token_fix applies every requested edit once, in order, and aborts when the token refuses one); a fix pass cut short by a failing rule or the parser has not written the user's file; in fix mode every line handed to PluginManager.next_line is written to the output of the pass exactly once, whichever context the last rule was given (D21, data loss, fixed); every character the regenerator deletes from its output is reserved by the parser (fails: known finding D6).",
+    text="Proof of what a fix is allowed to touch (a fragment of the property): the fix vocabulary is closed -- every (rule, token field) a rule can pass to register_fix_token_request, the field name resolved through locals, parameters and queued Fixer records, is in the whitelist specs/fix_vocabulary.json, and token ranges are replaced only by MD012/MD031/MD046 (one structural obligation per call site); a request is queued exactly once behind those already queued for the token and nothing else in the queue changes (register_fix_token_request, register_replace_tokens_request); _modify_token of all 15 token classes stores the requested value into exactly the attribute behind the named field and nothing else but the derived extra_data, unknown field or ill-typed value changes nothing; the replacement splice __apply_replacement_fix keeps every token before and after the replaced range exactly once and in order, moves the line number of exactly the tokens after the range by (lines of the replacement - lines replaced) and moves every pragma line below the range -- also those of the alternate '<!---' prefix, kept under negative keys -- by the same amount while every other pragma stays, none lost or overwritten (loop invariants, no bound; D12, D17 fixed); conflicting requests are refused, never silently resolved (__look_for_collisions raises iff a token of the range is already edited or replaced, __apply_replacements checks ALL replacements before applying the first and applies each once in order, __apply_token_fix applies every requested edit once, in order, and aborts when the token refuses one); a fix pass cut short by a failing rule or the parser has not written the user's file; in fix mode every line handed to PluginManager.next_line is written to the output of the pass exactly once, whichever context the last rule was given (D21, data loss, fixed); every character the regenerator deletes from its output is reserved by the parser (fails: known finding D6).",
     note=TB + 'Known finding D6 (thorn / U+8268 / U+8269 deleted by any token-level fix). NOT covered: that editing a style field preserves the parse (indent_level ...), the regenerator itself (incl. where it re-inserts pragma lines, D17(a)), that the value a rule writes into a text-carrying field equals the old text up to whitespace. Meaning preservation of the whole pipeline is not decided by this check.')
 
 CLAIMS["C06"] = dict(
